@@ -6,6 +6,7 @@
 -/
 import Proofs.Advert
 import Proofs.AdvertSys
+import Proofs.AdvertLife
 namespace Hap.Advert
 open Hap.AdvertSys
 
@@ -101,6 +102,87 @@ theorem C18_cfg_values_never {M V Hsh : Type} [DecidableEq Hsh] (H : NoVal M →
   rw [renderNoVal_valueOps]
   have : st.hsh = some (H (renderNoVal old)) := hst
   simp [this]
+
+/-! ## the configuration number over the whole life of an accessory -/
+
+section Life
+open Hap.AdvertLife
+
+/-- Over every life of an accessory — any number of process lifetimes on one persist file, each
+    started with any accessories, with value changes, arbitrary structural changes by the
+    application, `config_changed` calls and saves in any order — the live configuration number
+    and the one in the persist file stay within 1..65535 (for every hash function). -/
+theorem C18_cfg_life_range {M V Hsh : Type} [DecidableEq Hsh] (H : NoVal M → Hsh)
+    (ops : List (Op M V)) :
+    (1 ≤ (AdvertLife.run H life0 ops).st.cfg ∧ (AdvertLife.run H life0 ops).st.cfg ≤ 65535) ∧
+    ∀ d, (AdvertLife.run H life0 ops).disk = some d → 1 ≤ d.cfg ∧ d.cfg ≤ 65535 :=
+  let h := ok_run H life0 ops ok_life0
+  ⟨h.st, h.disk⟩
+
+/-- Across a restart, after *any* earlier history `pre`: take a process started with the
+    accessories `old` in which anything but a structural change happens (`during`: value changes,
+    `config_changed`, saves), and restart it with the accessories `new`.  The configuration number
+    after the restart differs from the one before it exactly when the hash of the value-free
+    rendering differs; with a collision-free hash: exactly when structure or metadata of the
+    database as it was when the process stopped differ from the new ones — and never because of
+    values. -/
+theorem C18_cfg_life_restart_iff {M V Hsh : Type} [DecidableEq Hsh] (H : NoVal M → Hsh)
+    (pre during : List (Op M V)) (old new : Db M V) (hq : ∀ op ∈ during, op.quiet = true) :
+    let before := AdvertLife.run H life0 (pre ++ .restart old :: during)
+    let after := AdvertLife.step H before (.restart new)
+    (after.st.cfg ≠ before.st.cfg ↔ accHash H new ≠ accHash H old) ∧
+    (Function.Injective H → (after.st.cfg ≠ before.st.cfg ↔ renderNoVal new ≠ renderNoVal before.db)) := by
+  intro before after
+  have e : before = AdvertLife.run H (boot H (AdvertLife.run H life0 pre) old) during := by
+    show AdvertLife.run H life0 (pre ++ .restart old :: during) = _
+    rw [AdvertLife.run_append]; rfl
+  have hs : Started H old before := by
+    rw [e]
+    exact started_run H old _ during (fun op h => quiet_inProcess (hq op h)) (started_boot H _ old)
+  have hr : renderNoVal before.db = renderNoVal old := by
+    rw [e, render_run_quiet H _ during hq]; rfl
+  have h1 : after.st.cfg ≠ before.st.cfg ↔ accHash H new ≠ accHash H old := boot_cfg_iff H old new before hs
+  refine ⟨h1, ?_⟩
+  intro hinj
+  rw [h1, hr]
+  unfold accHash
+  constructor
+  · intro h e'; exact h (by rw [e'])
+  · intro h e'; exact h (hinj e')
+
+/-- Values never move the number, over whole lives: if the accessories after the restart are
+    those the process was started with up to a history of value changes, the number is kept. -/
+theorem C18_cfg_life_values_never {M V Hsh : Type} [DecidableEq Hsh] (H : NoVal M → Hsh)
+    (pre during : List (Op M V)) (old : Db M V) (vops : List (Nat × Nat × (V → V)))
+    (hq : ∀ op ∈ during, op.quiet = true) :
+    let before := AdvertLife.run H life0 (pre ++ .restart old :: during)
+    (AdvertLife.step H before (.restart (valueOps vops old))).st.cfg = before.st.cfg := by
+  intro before
+  have h := (C18_cfg_life_restart_iff H pre during old (valueOps vops old) hq).1
+  have e : accHash H (valueOps vops old) = accHash H old := by
+    unfold accHash; rw [renderNoVal_valueOps]
+  exact Classical.byContradiction fun hne => (h.mp hne) e
+
+/-- a hash that separates the two example databases (number of services) -/
+def lifeExH : NoVal Nat → Nat := fun r => (r.map fun a => a.2.length).sum
+def lifeExA : Db Nat Nat := [⟨1, [⟨1, 0, [⟨2, 0, 0⟩]⟩]⟩]
+def lifeExB : Db Nat Nat := [⟨1, [⟨1, 0, [⟨2, 0, 0⟩]⟩, ⟨8, 1, [⟨9, 1, 0⟩]⟩]⟩]
+
+/-- What the restart rule compares with is the configuration at the previous *start*: a
+    structural change made at run time and announced with `config_changed` is counted a second
+    time by the next start (1 → 2 at the first start, → 3 by `config_changed`, → 4 at the restart
+    with the very same accessories). The number still changes whenever the configuration did; it
+    is the converse ("only then") that holds relative to the previous start, not to the moment
+    the process stopped. -/
+theorem C18_cfg_life_runtime_change_counted_twice :
+    (AdvertLife.run lifeExH life0 [.restart lifeExA, .mutate (fun _ => lifeExB), .configChanged]).st.cfg = 3 ∧
+    renderNoVal (AdvertLife.run lifeExH life0 [.restart lifeExA, .mutate (fun _ => lifeExB), .configChanged]).db
+      = renderNoVal lifeExB ∧
+    (AdvertLife.run lifeExH life0
+      [.restart lifeExA, .mutate (fun _ => lifeExB), .configChanged, .restart lifeExB]).st.cfg = 4 :=
+  ⟨by decide, rfl, by decide⟩
+
+end Life
 
 /-! ## TXT record -/
 
